@@ -22,10 +22,21 @@
 (*   dense = non-zero pixels of to_dense() (hasdense)                      *)
 (*   modes: "mask"      selection = on                                     *)
 (*          "cut"       selection = {lit : v > cut} \ off     (cut >= 0)   *)
+(*                      with full = TRUE the whole image is in img and the *)
+(*                      selection is {all pixels : v > cut} \ off (any cut;*)
+(*                      the cut is logged as floor(scaled cut as the C     *)
+(*                      kernel sees it): v > c <=> v > floor(c) for        *)
+(*                      integer v)                                         *)
 (*          "mask_cut"  selection = {p in on : v(p) > cut}    (threshold)  *)
 (* Clauses: count, set (exactly the selected pixels with their values),    *)
 (*   order (strictly increasing row-major => no duplicates), inimage,      *)
-(*   dense (to_dense gives the selected non-zero pixels and nothing else)  *)
+(*   dense (to_dense gives the selected non-zero pixels and nothing else), *)
+(*   dense_out (the same into a caller's dirty array), dense_arr (the same  *)
+(*   with the intensity array itself as argument)                          *)
+(* The thread count of a call and the way the frames of an "ovl" event     *)
+(* were obtained (fresh object, object with a history, pairrow over a scan *)
+(* with unsorted omega) are not part of an event: each call is judged by   *)
+(* the same definitions.                                                   *)
 (*                                                                         *)
 (* Event "ovl" (two labelled sorted frames): f1, f2 = [row, col, lab, n],  *)
 (*   lin = [has, nedge, none, rcl], mat = [has, nov, res], ovl = [has,     *)
@@ -49,13 +60,22 @@ SeqSet(s) == {s[x] : x \in DOMAIN s}
 
 \* ---- coo ---------------------------------------------------------------------------------
 Lit(e) == SeqSet(e.lit)                         \* <<r, c, hi, lo>>
-ValAt(e, r, c) == IF \E x \in Lit(e) : x[1] = r /\ x[2] = c
+\* e.full: the whole image is logged row-major in e.img (small shapes: full-image selections, and cuts below
+\* zero, which also select the pixels that hold 0); otherwise only its non-zero pixels are, in e.lit
+ValAt(e, r, c) == IF e.full THEN <<e.img[r * e.nf + c + 1][1], e.img[r * e.nf + c + 1][2]>>
+                  ELSE IF \E x \in Lit(e) : x[1] = r /\ x[2] = c
                   THEN LET x == CHOOSE x \in Lit(e) : x[1] = r /\ x[2] = c IN <<x[3], x[4]>>
                   ELSE <<0, 0>>
+AllPix(e) == (0..(e.ns - 1)) \X (0..(e.nf - 1))
 Selection(e) ==
     CASE e.mode = "mask" -> {<<p[1], p[2], ValAt(e, p[1], p[2])>> : p \in SeqSet(e.on)}
-      [] e.mode = "cut"  -> {<<x[1], x[2], <<x[3], x[4]>>>> :
+      [] e.mode = "cut" /\ ~e.full ->
+                            {<<x[1], x[2], <<x[3], x[4]>>>> :
                                 x \in {y \in Lit(e) : GT(<<y[3], y[4]>>, e.cut) /\ <<y[1], y[2]>> \notin SeqSet(e.off)}}
+      [] e.mode = "cut" /\ e.full ->
+                            LET offs == SeqSet(e.off) IN
+                            {<<p[1], p[2], ValAt(e, p[1], p[2])>> :
+                                p \in {q \in AllPix(e) : GT(ValAt(e, q[1], q[2]), e.cut) /\ <<q[1], q[2]>> \notin offs}}
       [] e.mode = "mask_cut" -> {s \in {<<p[1], p[2], ValAt(e, p[1], p[2])>> : p \in SeqSet(e.on)} : GT(s[3], e.cut)}
 
 CooVerdict(e) ==
@@ -66,13 +86,19 @@ CooVerdict(e) ==
         want == IF e.hasval THEN sel ELSE {<<s[1], s[2]>> : s \in sel}
     IN [id |-> e.id, kind |-> "coo",
         pre |-> /\ \A x, y \in DOMAIN e.lit : x # y => <<e.lit[x][1], e.lit[x][2]>> # <<e.lit[y][1], e.lit[y][2]>>
-                /\ e.mode = "cut" => ~GT(<<0, 0>>, e.cut),
+                /\ (e.mode = "cut" /\ ~e.full) => ~GT(<<0, 0>>, e.cut)
+                /\ e.full => Len(e.img) = e.ns * e.nf,
         count |-> e.ret = Cardinality(sel) /\ n = e.ret /\ Len(e.out_col) = n,
         set |-> got = want,
         order |-> \A x \in 2..n : Before(e.out_row[x - 1], e.out_col[x - 1], e.out_row[x], e.out_col[x]),
         inimage |-> \A x \in 1..n : e.out_row[x] \in 0..(e.ns - 1) /\ e.out_col[x] \in 0..(e.nf - 1),
         dense |-> ~e.hasdense \/
-                  {<<d[1], d[2], <<d[3], d[4]>>>> : d \in SeqSet(e.dense)} = {s \in sel : s[3] # <<0, 0>>}]
+                  {<<d[1], d[2], <<d[3], d[4]>>>> : d \in SeqSet(e.dense)} = {s \in sel : s[3] # <<0, 0>>},
+        \* to_dense into a caller's array that was full of a poison value, and to_dense(<the intensity array>)
+        dense_out |-> ~e.hasdense2 \/
+                  {<<d[1], d[2], <<d[3], d[4]>>>> : d \in SeqSet(e.dense_out)} = {s \in sel : s[3] # <<0, 0>>},
+        dense_arr |-> ~e.hasdense3 \/
+                  {<<d[1], d[2], <<d[3], d[4]>>>> : d \in SeqSet(e.dense_arr)} = {s \in sel : s[3] # <<0, 0>>}]
 
 \* ---- ovl ---------------------------------------------------------------------------------
 Sorted(f) == \A x \in 2..Len(f.row) : Before(f.row[x - 1], f.col[x - 1], f.row[x], f.col[x])
